@@ -4,7 +4,10 @@ package main
 // built from the schema descriptors) x valid and invalid raw inputs x recording handlers that
 // return declared / undeclared output ids with conforming / non-conforming data; unknown step and
 // signal ids; and the ORDER sub-family: a step call and signal calls for the same and different
-// run ids in every arrival order, sequentially and from goroutines released together.
+// run ids in every arrival order, sequentially and from goroutines released together (in that mode
+// every initialiser takes a moment, so that a non-atomic setupStepData shows); steps whose step data
+// is a pointer type or an interface type (`stepd-any`), with and without an initialiser (D65); and
+// `dcall`: CallableStep.Call on the step object itself with a native input, valid or constraint-violating.
 // Case and observation syntax: coq/Interp/RunStep.v.
 
 import (
@@ -13,6 +16,7 @@ import (
 	"fmt"
 	"sync"
 	"sync/atomic"
+	"time"
 
 	"go.flow.arcalot.io/pluginsdk/schema"
 	"verif/harness/sx"
@@ -45,6 +49,7 @@ func c11RecOf(ctx context.Context) *c11Rec {
 
 type c11Plugin struct {
 	callable *schema.CallableSchema
+	steps    map[string]schema.CallableStep // the step objects themselves, for direct Call
 	order    []string
 	inits    map[string]*int64
 	// a second, separately built copy of every scope: the data operations in isolation
@@ -52,57 +57,83 @@ type c11Plugin struct {
 	isoOut  map[string]map[string]*schema.ScopeSchema
 	isoSig  map[string]map[string]*schema.ScopeSchema
 	hasInit map[string]bool
+	// slowInit != 0: every initialiser takes a moment (a plugin allocating resources), which keeps the
+	// window between "run id looked up" and "step data stored" open long enough for the calls released
+	// together in `conc` mode to meet in it if setupStepData is not atomic.
+	slowInit int32
+}
+
+const c11InitDelay = 400 * time.Microsecond
+
+// c11MkStep builds one callable step whose step data has the Go type D: *c11Box (a pointer type: the
+// zero value is a typed nil) or any (an interface type: the zero value is the NIL INTERFACE, which is
+// what a step without an initialiser hands to its signal handlers — D65).
+func c11MkStep[D any](p *c11Plugin, st *sx.Node, mk func(*c11Box) D, unbox func(D) *c11Box) schema.CallableStep {
+	id := st.List[1].Str
+	hasInit := st.List[2].Atom == "1"
+	cnt := new(int64)
+	p.inits[id] = cnt
+	p.order = append(p.order, id)
+	p.hasInit[id] = hasInit
+	p.isoIn[id] = buildScope(st.List[3])
+	p.isoOut[id] = map[string]*schema.ScopeSchema{}
+	p.isoSig[id] = map[string]*schema.ScopeSchema{}
+	outputs := map[string]*schema.StepOutputSchema{}
+	for _, o := range st.List[4].List {
+		outputs[o.List[0].Str] = schema.NewStepOutputSchema(buildScope(o.List[1]), nil, false)
+		p.isoOut[id][o.List[0].Str] = buildScope(o.List[1])
+	}
+	sigs := map[string]schema.CallableSignal{}
+	for _, s := range st.List[5].List {
+		sig := s.List[0].Str
+		p.isoSig[id][sig] = buildScope(s.List[1])
+		sigs[sig] = schema.NewCallableSignal[D, any](sig, buildScope(s.List[1]), nil,
+			func(ctx context.Context, d D, in any) {
+				if r := c11RecOf(ctx); r != nil {
+					r.mu.Lock()
+					r.entries = append(r.entries, c11Entry{signal: true, step: id, sig: sig, box: unbox(d), arg: in})
+					r.mu.Unlock()
+				}
+			})
+	}
+	var initializer func() D
+	if hasInit {
+		initializer = func() D {
+			b := &c11Box{id: atomic.AddInt64(cnt, 1) - 1}
+			if atomic.LoadInt32(&p.slowInit) != 0 {
+				time.Sleep(c11InitDelay)
+			}
+			return mk(b)
+		}
+	}
+	return schema.NewCallableStepWithSignals[D, any](id, buildScope(st.List[3]), outputs, sigs, nil, nil,
+		initializer,
+		func(ctx context.Context, d D, in any) (string, any) {
+			r := c11RecOf(ctx)
+			if r == nil {
+				return "", nil
+			}
+			r.mu.Lock()
+			defer r.mu.Unlock()
+			r.entries = append(r.entries, c11Entry{step: id, box: unbox(d), arg: in})
+			return r.outID, r.outData
+		})
 }
 
 func c11Build(n *sx.Node) *c11Plugin {
 	p := &c11Plugin{inits: map[string]*int64{}, isoIn: map[string]*schema.ScopeSchema{},
 		isoOut: map[string]map[string]*schema.ScopeSchema{}, isoSig: map[string]map[string]*schema.ScopeSchema{},
-		hasInit: map[string]bool{}}
+		hasInit: map[string]bool{}, steps: map[string]schema.CallableStep{}}
 	var steps []schema.CallableStep
 	for _, st := range n.List[1:] {
-		id := st.List[1].Str
-		hasInit := st.List[2].Atom == "1"
-		cnt := new(int64)
-		p.inits[id] = cnt
-		p.order = append(p.order, id)
-		p.hasInit[id] = hasInit
-		p.isoIn[id] = buildScope(st.List[3])
-		p.isoOut[id] = map[string]*schema.ScopeSchema{}
-		p.isoSig[id] = map[string]*schema.ScopeSchema{}
-		outputs := map[string]*schema.StepOutputSchema{}
-		for _, o := range st.List[4].List {
-			outputs[o.List[0].Str] = schema.NewStepOutputSchema(buildScope(o.List[1]), nil, false)
-			p.isoOut[id][o.List[0].Str] = buildScope(o.List[1])
+		var cs schema.CallableStep
+		if st.Head() == "stepd-any" {
+			cs = c11MkStep[any](p, st, func(b *c11Box) any { return b }, func(d any) *c11Box { b, _ := d.(*c11Box); return b })
+		} else {
+			cs = c11MkStep[*c11Box](p, st, func(b *c11Box) *c11Box { return b }, func(d *c11Box) *c11Box { return d })
 		}
-		sigs := map[string]schema.CallableSignal{}
-		for _, s := range st.List[5].List {
-			sig := s.List[0].Str
-			p.isoSig[id][sig] = buildScope(s.List[1])
-			sigs[sig] = schema.NewCallableSignal[*c11Box, any](sig, buildScope(s.List[1]), nil,
-				func(ctx context.Context, d *c11Box, in any) {
-					if r := c11RecOf(ctx); r != nil {
-						r.mu.Lock()
-						r.entries = append(r.entries, c11Entry{signal: true, step: id, sig: sig, box: d, arg: in})
-						r.mu.Unlock()
-					}
-				})
-		}
-		var initializer func() *c11Box
-		if hasInit {
-			initializer = func() *c11Box { return &c11Box{id: atomic.AddInt64(cnt, 1) - 1} }
-		}
-		steps = append(steps, schema.NewCallableStepWithSignals[*c11Box, any](id, buildScope(st.List[3]), outputs, sigs, nil, nil,
-			initializer,
-			func(ctx context.Context, d *c11Box, in any) (string, any) {
-				r := c11RecOf(ctx)
-				if r == nil {
-					return "", nil
-				}
-				r.mu.Lock()
-				defer r.mu.Unlock()
-				r.entries = append(r.entries, c11Entry{step: id, box: d, arg: in})
-				return r.outID, r.outData
-			}))
+		p.steps[st.List[1].Str] = cs
+		steps = append(steps, cs)
 	}
 	p.callable = schema.NewCallableSchema(steps...)
 	return p
@@ -188,6 +219,23 @@ func runStepsCase(p *sx.Node) *sx.Node {
 			}
 			return
 		}
+		if c.Head() == "dcall" {
+			// CallableStep.Call on the step object itself, with a NATIVE value: nothing but the step's own
+			// re-validation stands between this value and the handler
+			step, ok := plug.steps[c.List[2].Str]
+			if !ok || !c11Representable(c.List[3]) || !c11Representable(c.List[5]) {
+				results[i] = sx.L(sx.A("bad"), sx.S("dcall: unknown step or a value Go cannot represent"))
+				return
+			}
+			rec.outID, rec.outData = c.List[4].Str, valFromSx(c.List[5])
+			oid, data, err := step.Call(ctx, c.List[1].Str, valFromSx(c.List[3]))
+			if err != nil {
+				results[i] = sx.L(sx.A("err"), sx.A(c11Class(err)))
+			} else {
+				results[i] = sx.L(sx.A("ok"), sx.S(oid), valSx(data))
+			}
+			return
+		}
 		err := plug.callable.CallSignal(ctx, c.List[1].Str, c.List[2].Str, c.List[3].Str, valFromSx(c.List[4]))
 		if err != nil {
 			results[i] = sx.L(sx.A("err"), sx.A(c11Class(err)))
@@ -196,6 +244,7 @@ func runStepsCase(p *sx.Node) *sx.Node {
 		}
 	}
 	if mode == "conc" {
+		atomic.StoreInt32(&plug.slowInit, 1)
 		start := make(chan struct{})
 		var wg sync.WaitGroup
 		for i := range calls {
@@ -301,6 +350,14 @@ func c11IsoOf(plug *c11Plugin, c *sx.Node) *sx.Node {
 		})
 		return sx.L(sx.A("iso"), u, v, s)
 	}
+	if c.Head() == "dcall" {
+		v := c11Iso(func() (*sx.Node, error) { return unit(), in.Validate(valFromSx(c.List[3])) })
+		os, ok := plug.isoOut[sid][c.List[4].Str]
+		if !ok {
+			return sx.L(sx.A("iso"), v, sx.A("undeclared"))
+		}
+		return sx.L(sx.A("iso"), v, c11Iso(func() (*sx.Node, error) { return unit(), os.Validate(valFromSx(c.List[5])) }))
+	}
 	ss, ok := plug.isoSig[sid][c.List[3].Str]
 	if !ok {
 		return sx.L(sx.A("iso"), sx.A("nosig"))
@@ -324,6 +381,7 @@ type c11StepD struct {
 	input   *sx.Node
 	outs    [][2]*sx.Node // (id string node, scope)
 	sigs    [][2]*sx.Node
+	anyData bool // StepData = any instead of *c11Box
 }
 
 func (s c11StepD) sx() *sx.Node {
@@ -334,7 +392,11 @@ func (s c11StepD) sx() *sx.Node {
 	for _, g := range s.sigs {
 		sigs.Append(sx.L(g[0], g[1]))
 	}
-	return sx.L(sx.A("stepd"), sx.S(s.id), sx.B(s.hasInit), s.input, outs, sigs)
+	head := "stepd"
+	if s.anyData {
+		head = "stepd-any"
+	}
+	return sx.L(sx.A(head), sx.S(s.id), sx.B(s.hasInit), s.input, outs, sigs)
 }
 
 func c11Case(steps []c11StepD, mode string, calls []*sx.Node) *sx.Node {
@@ -368,6 +430,59 @@ func c11Call(run, step string, raw *sx.Node, outID string, outData *sx.Node) *sx
 }
 func c11Signal(run, step, sig string, raw *sx.Node) *sx.Node {
 	return sx.L(sx.A("signal"), sx.S(run), sx.S(step), sx.S(sig), raw)
+}
+func c11Direct(run, step string, native *sx.Node, outID string, outData *sx.Node) *sx.Node {
+	return sx.L(sx.A("dcall"), sx.S(run), sx.S(step), native, sx.S(outID), outData)
+}
+
+// c11Violate: a native value of the SAME Go types in which one scalar leaf breaks a constraint its schema
+// may carry (a shorter / longer string, an integer far outside any generated range, a float likewise) —
+// what the type system cannot catch and only the step's re-validation can.  nil if there is no such leaf.
+func c11Violate(r *Rng, v *sx.Node) *sx.Node {
+	var leaves []*sx.Node
+	var walk func(n *sx.Node)
+	walk = func(n *sx.Node) {
+		if !n.IsList() {
+			return
+		}
+		switch n.Head() {
+		case "s", "i", "f":
+			if len(n.List) == 3 {
+				leaves = append(leaves, n)
+			}
+			return
+		}
+		for _, c := range n.List[1:] {
+			walk(c)
+		}
+	}
+	walk(v)
+	if len(leaves) == 0 {
+		return nil
+	}
+	target := pick(r, leaves)
+	var rebuild func(n *sx.Node) *sx.Node
+	rebuild = func(n *sx.Node) *sx.Node {
+		if n == target {
+			switch n.Head() {
+			case "s":
+				return sx.L(n.List[0], n.List[1], sx.S(pick(r, []string{"", "x", "this string is longer than every maximum the generator uses", "ÄÖ#"})))
+			case "i":
+				return sx.L(n.List[0], n.List[1], sx.I(pick(r, []int64{-100, 100, 127, -128})))
+			default:
+				return sx.L(n.List[0], n.List[1], flSx(pick(r, []float64{-1e6, 1e6})))
+			}
+		}
+		if !n.IsList() {
+			return n
+		}
+		out := sx.L()
+		for _, c := range n.List {
+			out.Append(rebuild(c))
+		}
+		return out
+	}
+	return c11Norm(rebuild(v))
 }
 
 // c11Native asks the SDK for a native value of the scope (generation only: both sides of the
@@ -425,7 +540,7 @@ func c11MutateNative(r *Rng, v *sx.Node) *sx.Node {
 	return pick(r, wrongValues)
 }
 
-var c11OutIDs =[]string{"success", "error", "partial"}
+var c11OutIDs = []string{"success", "error", "partial"}
 var c11SigIDs = []string{"cancel", "pause"}
 var c11Runs = []string{"r1", "r2", "r3"}
 
@@ -434,7 +549,7 @@ func c11GenPlugin(r *Rng) ([]c11StepD, int) {
 	n := 1 + r.Intn(3)
 	var steps []c11StepD
 	for i := 0; i < n; i++ {
-		st := c11StepD{id: fmt.Sprintf("step%d", i+1), hasInit: r.Chance(75)}
+		st := c11StepD{id: fmt.Sprintf("step%d", i+1), hasInit: r.Chance(75), anyData: r.Chance(30)}
 		st.input = (&sgen{r: r}).scope(depth)
 		for j := 0; j < 1+r.Intn(3); j++ {
 			st.outs = append(st.outs, [2]*sx.Node{sx.S(c11OutIDs[j]), (&sgen{r: r}).scope(depth)})
@@ -503,6 +618,24 @@ func c11GenCalls(r *Rng, steps []c11StepD, depth, n int) []*sx.Node {
 		if n := c11Norm(data); n != nil {
 			data = n
 		}
+		if sid == st.id && r.Chance(22) {
+			// the step object called directly with a NATIVE input: as Unserialize made it (45%), with one
+			// scalar leaf of the right Go type breaking a constraint (30%), or mutated at random (25%)
+			nat := c11Native(r, st.input, depth+1)
+			switch k := r.Intn(100); {
+			case k < 30:
+				if v := c11Violate(r, nat); v != nil {
+					nat = v
+				}
+			case k < 55:
+				nat = c11MutateNative(r, nat)
+			}
+			if n := c11Norm(nat); n != nil {
+				nat = n
+			}
+			calls = append(calls, c11Direct(run, sid, nat, outID, data))
+			continue
+		}
 		calls = append(calls, c11Call(run, sid, raw, outID, data))
 	}
 	return calls
@@ -510,12 +643,13 @@ func c11GenCalls(r *Rng, steps []c11StepD, depth, n int) []*sx.Node {
 
 // ---- the order sub-family: fixed small scopes, every arrival order ----
 
-func c11OrderSteps(hasInit bool) []c11StepD {
-	in := dScope("In", dObject("In", false, propD{name: "a", t: dInt(ip(0), nil, nil), required: true}))
+func c11OrderSteps(hasInit bool, anyData ...bool) []c11StepD {
+	in := dScope("In", dObject("In", false, propD{name: "a", t: dInt(ip(0), nil, nil), required: true},
+		propD{name: "s", t: dString(ip(2), ip(5), nil)}))
 	out := dScope("Out", dObject("Out", false, propD{name: "m", t: dString(nil, nil, nil), required: true}))
 	sg := dScope("Sig", dObject("Sig", false, propD{name: "x", t: dString(nil, ip(3), nil)}))
 	mk := func(id string) c11StepD {
-		return c11StepD{id: id, hasInit: hasInit, input: in,
+		return c11StepD{id: id, hasInit: hasInit, input: in, anyData: len(anyData) > 0 && anyData[0],
 			outs: [][2]*sx.Node{{sx.S("success"), out}},
 			sigs: [][2]*sx.Node{{sx.S("cancel"), sg}, {sx.S("pause"), sg}}}
 	}
@@ -536,6 +670,12 @@ func c11OrderOp(kind string, run, step string) *sx.Node {
 		return c11Signal(run, step, "cancel", vM(tAnyMap, vS("x"), vS("too long")))
 	case "nosig":
 		return c11Signal(run, step, "nosuchsignal", vM(tAnyMap))
+	case "dcall": // the step object called directly with a valid native input
+		return c11Direct(run, step, vM(tStrMap, vS("a"), vI("i64", 1), vS("s"), vS("abc")), "success", c11OkOut)
+	case "baddcall": // ... with a correctly TYPED native input whose integer is out of range
+		return c11Direct(run, step, vM(tStrMap, vS("a"), vI("i64", -1)), "success", c11OkOut)
+	case "shortdcall": // ... whose string is too short
+		return c11Direct(run, step, vM(tStrMap, vS("a"), vI("i64", 1), vS("s"), vS("x")), "success", c11OkOut)
 	}
 	panic(kind)
 }
@@ -568,13 +708,22 @@ func c11GenOrder(r *Rng, tier string, emit func(*sx.Node)) {
 		{{"badcall", "r1", "step1"}, {"cancel", "r1", "step1"}, {"call", "r1", "step1"}, {"nosig", "r1", "step1"}},
 		{{"badsig", "r1", "step1"}, {"call", "r1", "step1"}, {"cancel", "r2", "step1"}, {"badcall", "r2", "step1"}},
 		{{"call", "r1", "step1"}, {"call", "r1", "step1"}, {"cancel", "r1", "step1"}},
+		{{"dcall", "r1", "step1"}, {"cancel", "r1", "step1"}, {"baddcall", "r1", "step1"}, {"shortdcall", "r2", "step1"}},
+	}
+	// (initialiser?, StepData = any?) per set: a pointer-typed and an interface-typed step data, with and
+	// without an initialiser (interface-typed without initialiser: the nil interface reaches the handlers, D65)
+	type variant struct{ hasInit, anyData bool }
+	variants := [][]variant{
+		{{true, false}, {false, false}, {false, true}},
+		{{true, false}, {true, true}},
+		{{true, false}, {false, true}},
+		{{true, false}},
+		{{true, false}, {true, true}, {false, true}},
+		{{true, false}, {false, true}},
 	}
 	for si, set := range sets {
-		for _, hasInit := range []bool{true, false} {
-			if !hasInit && si > 0 {
-				continue
-			}
-			steps := c11OrderSteps(hasInit)
+		for _, vr := range variants[si] {
+			steps := c11OrderSteps(vr.hasInit, vr.anyData)
 			permutations(len(set), func(idx []int) {
 				var calls []*sx.Node
 				for _, i := range idx {
@@ -590,9 +739,9 @@ func c11GenOrder(r *Rng, tier string, emit func(*sx.Node)) {
 	if tier == "thorough" {
 		n = 1500
 	}
-	kinds := []string{"call", "call", "cancel", "pause", "cancel", "badcall", "badsig", "nosig"}
+	kinds := []string{"call", "call", "cancel", "pause", "cancel", "badcall", "badsig", "nosig", "dcall", "baddcall"}
 	for i := 0; i < n; i++ {
-		steps := c11OrderSteps(r.Chance(85))
+		steps := c11OrderSteps(r.Chance(85), r.Chance(30))
 		var calls []*sx.Node
 		for j := 0; j < 4+r.Intn(13); j++ {
 			calls = append(calls, c11OrderOp(pick(r, kinds), pick(r, c11Runs), pick(r, []string{"step1", "step1", "step2"})))
@@ -609,6 +758,12 @@ func init() {
 			emit(c11Case(steps, "seq", []*sx.Node{c11OrderOp("nosig", "r1", "step1")}))
 			emit(c11Case(steps, "seq", []*sx.Node{c11Signal("r1", "nostep", "cancel", vM(tAnyMap)),
 				c11Call("r1", "nostep", vM(tAnyMap), "success", c11OkOut)}))
+			// D65: a VALID signal to a step whose step data is an interface type and has no initialiser
+			emit(c11Case(c11OrderSteps(false, true), "seq", []*sx.Node{c11OrderOp("cancel", "r1", "step1"),
+				c11OrderOp("call", "r1", "step1"), c11OrderOp("pause", "r1", "step1")}))
+			// the step's own re-validation: a typed native input that breaks a constraint, called directly
+			emit(c11Case(steps, "seq", []*sx.Node{c11OrderOp("baddcall", "r1", "step1"), c11OrderOp("shortdcall", "r1", "step1"),
+				c11OrderOp("dcall", "r1", "step1")}))
 			c11GenOrder(r, tier, emit)
 			n := 220
 			if tier == "thorough" {
